@@ -422,3 +422,139 @@ Proof.
     pose proof (Z.mod_pos_bound rhs bits Hb) as Hm.
     rewrite chk64_ok by lia. cbn [obind]. rewrite Hrot by lia. reflexivity.
 Qed.
+
+(* ====================== leading_zeros / leading_ones / bit_len / byte_len ====================== *)
+Definition lz_body (BITS LIMBS : Z) (self : list Z) : Z -> unit -> outcome (ctl unit Z) :=
+  fun i t_10 => do t_1 <- idx self i ; if (negb (t_1 =? 0)) then (
+      do t_2 <- chk64 (LIMBS - 1) ; do t_3 <- chk64 (t_2 - i) ; let n := t_3 in
+      do t_4 <- chk64 (n * 64) ; let skipped := t_4 in
+      do t_5 <- g_mask BITS ; let fixed := (clz64 t_5) in
+      do t_6 <- idx self i ; let top := (clz64 t_6) in
+      do t_7 <- chk64 (skipped + top) ; do t_8 <- chk64 (t_7 - fixed) ; Val (Ret t_8)) else
+    Val (Cont tt).
+
+Lemma g_leading_zeros_unfold BITS LIMBS self :
+  g_leading_zeros BITS LIMBS self =
+  (do t_9 <- for_down_ret (Z.to_nat LIMBS) tt (lz_body BITS LIMBS self) ;
+   match t_9 with Ret r_ => Val r_ | Cont _ => Val BITS end).
+Proof. reflexivity. Qed.
+
+Lemma clz64_range x : inW x -> 0 <= clz64 x <= 64.
+Proof.
+  intros Hx. unfold clz64. destruct (Z.eqb_spec x 0); [lia|]. pose proof (Z.log2_nonneg x).
+  assert (Z.log2 x < 64). { apply Z.log2_lt_pow2; [unfold inW in Hx; lia|]. rewrite <- B_pow. unfold inW in Hx. lia. }
+  lia.
+Qed.
+Lemma mask_inW bits : inW (mask bits).
+Proof.
+  unfold mask, inW. destruct (bits =? 0); [rewrite B_val; lia|].
+  destruct (Z.eqb_spec (bits mod 64) 0); [rewrite B_val; lia|].
+  pose proof (Z.mod_pos_bound bits 64 ltac:(lia)).
+  assert (0 < 2 ^ (bits mod 64)) by (apply Z.pow_pos_nonneg; lia).
+  assert (2 ^ (bits mod 64) <= 2 ^ 64) by (apply Z.pow_le_mono_r; lia). rewrite B_pow. lia.
+Qed.
+
+Lemma lz_loop_eq bits L p : forall tail,
+  0 <= bits -> L = Z.of_nat (length p + length tail) -> 64 * L < B -> Forall inW p ->
+  (do c <- for_down_ret (length p) tt (lz_body bits L (p ++ tail)) ;
+   match c with Ret r_ => Val r_ | Cont _ => Val bits end)
+  = Bits.lz_loop bits (rev p) (Z.of_nat (length tail)).
+Proof.
+  induction p as [|x p IH] using rev_ind; intros tail Hb HL HB Hw.
+  - reflexivity.
+  - apply Forall_app in Hw. destruct Hw as [Hw Hx]. pose proof (Forall_inv Hx) as Hx'.
+    rewrite app_length in *. cbn [length] in *. replace (length p + 1)%nat with (S (length p)) by lia. cbn [for_down_ret].
+    rewrite rev_app_distr. cbn [rev app Bits.lz_loop].
+    unfold lz_body at 1. rewrite <- app_assoc. cbn [app].
+    rewrite !idx_app_mid. cbn [obind]. unfold Bits.nonzero.
+    destruct (negb (x =? 0)).
+    + rewrite chk64_ok by lia. cbn [obind]. rewrite chk64_ok by lia. cbn [obind].
+      replace (L - 1 - Z.of_nat (length p)) with (Z.of_nat (length tail)) by lia.
+      rewrite chk64_ok by lia. cbn [obind]. rewrite g_mask_eq by exact Hb. cbn [obind].
+      pose proof (clz64_range x Hx'). pose proof (clz64_range (mask bits) (mask_inW bits)).
+      assert (Hcx : clz64 x <= 64) by lia.
+      rewrite chk64_ok by (rewrite B_val in *; lia). cbn [obind].
+      unfold Bits.usub, chk64.
+      destruct (Z.ltb_spec (Z.of_nat (length tail) * 64 + clz64 x) (clz64 (mask bits))).
+      * replace ((0 <=? Z.of_nat (length tail) * 64 + clz64 x - clz64 (mask bits)) &&
+                 (Z.of_nat (length tail) * 64 + clz64 x - clz64 (mask bits) <? B)) with false by lia. reflexivity.
+      * replace ((0 <=? Z.of_nat (length tail) * 64 + clz64 x - clz64 (mask bits)) &&
+                 (Z.of_nat (length tail) * 64 + clz64 x - clz64 (mask bits) <? B)) with true
+          by (rewrite B_val in *; lia). reflexivity.
+    + cbn [obind].
+      replace (Z.of_nat (length tail) + 1) with (Z.of_nat (length (x :: tail))) by (cbn [length]; lia).
+      apply IH; auto. cbn [length]. lia.
+Qed.
+
+Lemma lz_loop_range bits ms : forall n r, 0 <= bits -> Bits.lz_loop bits ms n = Val r -> 0 <= r.
+Proof.
+  induction ms as [|x ms IH]; intros n r Hb E.
+  - cbn in E. injection E as <-. exact Hb.
+  - cbn [Bits.lz_loop] in E. destruct (Bits.nonzero x).
+    + unfold Bits.usub in E. destruct (n * 64 + clz64 x <? clz64 (mask bits)) eqn:El; [discriminate|].
+      injection E as <-. lia.
+    + apply (IH (n + 1) r Hb E).
+Qed.
+
+Lemma land_inW y m : inW y -> 0 <= m -> inW (Z.land y m).
+Proof.
+  unfold inW. intros Hy Hm. split; [apply Z.land_nonneg; lia|].
+  destruct (Z.eq_dec (Z.land y m) 0) as [->|N]; [pose proof B_pos; lia|].
+  assert (0 <= Z.land y m) by (apply Z.land_nonneg; lia).
+  rewrite B_pow. apply Z.log2_lt_pow2; [lia|].
+  pose proof (Z.log2_land y m ltac:(lia) Hm).
+  assert (y <> 0) by (intros ->; rewrite Z.land_0_l in N; congruence).
+  assert (Z.log2 y < 64) by (apply Z.log2_lt_pow2; [lia | rewrite <- B_pow; lia]). lia.
+Qed.
+
+Theorem g_lz_family_eq bits a :
+  0 <= bits -> bits + 7 < B -> 64 * nlimbs bits < B -> length a = nlimbsN bits -> Forall inW a ->
+  g_leading_zeros bits (nlimbs bits) a = Bits.leading_zeros bits a /\
+  g_leading_ones bits (nlimbs bits) a = Bits.leading_ones bits a /\
+  g_bit_len bits (nlimbs bits) a = Bits.bit_len bits a /\
+  g_byte_len bits (nlimbs bits) a = Bits.byte_len bits a.
+Proof.
+  intros Hb HbB HB Hla Hw. pose proof (nlimbs_nonneg bits Hb) as HL.
+  assert (Hlz : forall l, length l = nlimbsN bits -> Forall inW l ->
+            g_leading_zeros bits (nlimbs bits) l = Bits.leading_zeros bits l).
+  { intros l Hl Hwl. rewrite g_leading_zeros_unfold. unfold Bits.leading_zeros.
+    replace (Z.to_nat (nlimbs bits)) with (length l) by (rewrite Hl; reflexivity).
+    pose proof (lz_loop_eq bits (nlimbs bits) l [] Hb ltac:(cbn [length]; rewrite Hl; unfold nlimbsN; lia) HB Hwl) as E.
+    rewrite app_nil_r in E. exact E. }
+  assert (Hbl : g_bit_len bits (nlimbs bits) a = Bits.bit_len bits a).
+  { unfold g_bit_len, Bits.bit_len. rewrite (Hlz a Hla Hw).
+    destruct (Bits.leading_zeros bits a) as [lz| | | |] eqn:El; cbn [obind]; try reflexivity.
+    pose proof (lz_loop_range bits (rev a) 0 lz Hb El) as Hlz0.
+    unfold Bits.usub, chk64. destruct (Z.ltb_spec bits lz).
+    - replace ((0 <=? bits - lz) && (bits - lz <? B)) with false by lia. reflexivity.
+    - replace ((0 <=? bits - lz) && (bits - lz <? B)) with true by lia. reflexivity. }
+  split; [apply Hlz; assumption|]. split; [|split; [exact Hbl|]].
+  - unfold g_leading_ones, Bits.leading_ones.
+    rewrite PfGenBits.g_not_eq by (auto; lia). cbn [obind].
+    assert (Hln : length (Bits.unot bits a) = nlimbsN bits).
+    { unfold Bits.unot. destruct (bits =? 0); [apply PfGenAdd.uZERO_length|].
+      rewrite masked_length, map_length. exact Hla. }
+    assert (Hwn : Forall inW (Bits.unot bits a)).
+    { unfold Bits.unot. destruct (bits =? 0).
+      - unfold uZERO, zero_limbs. apply Forall_forall. intros x Hx. apply repeat_spec in Hx. subst.
+        unfold inW. pose proof B_pos. lia.
+      - unfold masked. destruct (should_mask bits).
+        + assert (G : forall l, Forall inW l -> Forall inW (map_last (fun x => Z.land x (mask bits)) l)).
+          { induction l as [|y l IHl]; intros Hl; [constructor|]. destruct l as [|z l].
+            - cbn. constructor; [|constructor]. inversion Hl; subst.
+              apply land_inW; [assumption | pose proof (mask_inW bits) as Hm; unfold inW in Hm; lia].
+            - change (map_last (fun x => Z.land x (mask bits)) (y :: z :: l))
+                with (y :: map_last (fun x => Z.land x (mask bits)) (z :: l)).
+              inversion Hl; subst. constructor; [assumption | apply IHl; assumption]. }
+          apply G. apply Forall_forall. intros x Hx. apply in_map_iff in Hx. destruct Hx as (y & <- & Hy).
+          rewrite Forall_forall in Hw. specialize (Hw y Hy). unfold Bits.not64, inW in *. rewrite B_val in *. lia.
+        + apply Forall_forall. intros x Hx. apply in_map_iff in Hx. destruct Hx as (y & <- & Hy).
+          rewrite Forall_forall in Hw. specialize (Hw y Hy). unfold Bits.not64, inW in *. rewrite B_val in *. lia. }
+    rewrite (Hlz _ Hln Hwn). destruct (Bits.leading_zeros bits (Bits.unot bits a)); reflexivity.
+  - unfold g_byte_len, Bits.byte_len. rewrite Hbl.
+    destruct (Bits.bit_len bits a) as [n| | | |] eqn:En; cbn [obind]; try reflexivity.
+    unfold Bits.bit_len in En. destruct (Bits.leading_zeros bits a) as [lz| | | |] eqn:El; cbn [obind] in En; try discriminate.
+    pose proof (lz_loop_range bits (rev a) 0 lz Hb El) as Hlz0.
+    unfold Bits.usub in En. destruct (bits <? lz) eqn:Ec; [discriminate|]. injection En as <-.
+    rewrite chk64_ok by lia. reflexivity.
+Qed.
